@@ -124,6 +124,21 @@ Step ==
                /\ val' = [val EXCEPT ![i] = vnew]
                /\ maxn' = IF ok THEN MaxOf(D, e) ELSE maxn
                /\ UNCHANGED <<ex, cache>>
+       [] e.op = "exsetup" /\ ex[e.x].st # "none" ->
+            \* executor.setup(): the setup part of the executor's own selection (dag.py: DAGExecution.setup)
+            LET ii == ex[e.x].i
+                vv == val[ii]
+                S == ex[e.x].S \cap SetupNodes(D)
+                ok == e.out = 0
+                vnew == IF ok THEN After(D, e, S, vv) ELSE vv
+                bad == Clauses({
+                  <<e.out # 0, "C15.spurious-error">>,
+                  <<ok /\ Bits(n, e.e) # Runs(D, S, vv), "C11.setup-exec">>,
+                  <<Bits(n, e.e) \cap DoneSet(D, vv) # {}, "C11.rerun">>})
+            IN /\ viol' = Mark(bad \cup KeysClauses(D, e, vnew))
+               /\ val' = [val EXCEPT ![ii] = vnew]
+               /\ maxn' = IF ok THEN MaxOf(D, e) ELSE maxn
+               /\ UNCHANGED <<ex, cache>>
        [] e.op = "exnew" ->
             LET raised == e.out = 3
                 bad == Clauses({
